@@ -106,3 +106,205 @@ Example mp_le_example :
     [(1, [(s2l "0.1", 1); (s2l "1e+06", 3); (s2l "+Inf", 4)]);
      (2, [(s2l "0.1", 1); (s2l "2.5e+06", 3); (s2l "+Inf", 4)])].
 Proof. vm_compute. reflexivity. Qed.
+
+(* ---------------------------------------------------------------------------------------------------------- *)
+(* the instrumentation class: le labels of a Histogram built from bounds GIVEN in any type/spelling          *)
+
+Lemma with_inf_cases bs :
+  with_inf bs = bs \/ with_inf bs = bs ++ [FPosInf].
+Proof.
+  destruct bs as [|b r]; [left; reflexivity|]. unfold with_inf.
+  destruct (is_pinf (last (b :: r) FNaN)); [left|right]; reflexivity.
+Qed.
+
+Lemma with_inf_nth bs i : (i < length bs)%nat -> nth_error (with_inf bs) i = nth_error bs i.
+Proof.
+  intro H. destruct (with_inf_cases bs) as [E|E]; rewrite E; [reflexivity|].
+  apply nth_error_app1. exact H.
+Qed.
+
+Lemma last_app_single {A} (l : list A) (x d : A) : last (l ++ [x]) d = x.
+Proof. induction l as [|a r IH]; [reflexivity|]. simpl. destruct (r ++ [x]) eqn:E; [destruct r; discriminate|]. exact IH. Qed.
+
+Lemma is_pinf_true c : is_pinf c = true -> c = FPosInf.
+Proof. destruct c; simpl; congruence. Qed.
+
+(* the last bound kept is +Inf, everything before it is the given bounds, converted, in the given order *)
+Lemma with_inf_shape bs : bs <> [] ->
+  exists pre, with_inf bs = pre ++ [FPosInf] /\ (pre = bs \/ pre ++ [FPosInf] = bs).
+Proof.
+  intro Hne. destruct bs as [|b r]; [congruence|]. unfold with_inf.
+  destruct (is_pinf (last (b :: r) FNaN)) eqn:E.
+  - apply is_pinf_true in E. destruct (exists_last Hne) as (pre & x & Hx). rewrite Hx in *.
+    rewrite last_app_single in E. subst x. exists pre. split; [reflexivity|right; reflexivity].
+  - exists (b :: r). split; [reflexivity|left; reflexivity].
+Qed.
+
+Theorem hist_bounds_shape (B : Type) (f : B -> fclass) src bs :
+  hist_bounds B f src = Ok bs ->
+  (2 <= length bs)%nat /\
+  exists pre, bs = pre ++ [FPosInf] /\ (pre = map f src \/ pre ++ [FPosInf] = map f src).
+Proof.
+  unfold hist_bounds. destruct (length (with_inf (map f src)) <? 2)%nat eqn:E; [discriminate|].
+  intro H. inversion H. subst bs. apply Nat.ltb_ge in E. split; [exact E|].
+  apply with_inf_shape. intro Hn. rewrite Hn in E. simpl in E. lia.
+Qed.
+
+(* every bucket exposed: its le is the rendering of the DOUBLE its bound denotes, its value the running count *)
+Theorem hist_le_own_bounds (B : Type) (f : B -> fclass) src counts out :
+  hist_le_samples B f src counts = Ok out ->
+  exists bs, hist_bounds B f src = Ok bs /\
+    (length counts = length bs ->
+       map fst out = map go_string bs /\ map snd out = prefix_sums 0 counts).
+Proof.
+  unfold hist_le_samples. destruct (hist_bounds B f src) as [bs|e] eqn:E; simpl; [|discriminate].
+  intro H. inversion H. subst out. exists bs. split; [reflexivity|]. intro Hl.
+  rewrite le_cumulate_labels, le_cumulate_counts.
+  assert (H1 : map fst (combine bs counts) = bs).
+  { clear - Hl. revert counts Hl. induction bs as [|b r IH]; intros [|c cs] Hl; simpl in *; try congruence.
+    rewrite IH; [reflexivity|lia]. }
+  assert (H2 : map snd (combine bs counts) = counts).
+  { clear - Hl. revert counts Hl. induction bs as [|b r IH]; intros [|c cs] Hl; simpl in *; try congruence; try lia.
+    rewrite IH; [reflexivity|lia]. }
+  rewrite H2. split; [|reflexivity].
+  rewrite <- H1 at 2. rewrite map_map. reflexivity.
+Qed.
+
+Lemma combine_nth_fst {X Y} (l1 : list X) (l2 : list Y) i a b :
+  nth_error (combine l1 l2) i = Some (a, b) -> nth_error l1 i = Some a.
+Proof.
+  revert l2 i. induction l1 as [|x r IH]; intros [|y l2] [|i]; simpl; try discriminate.
+  - intro H. inversion H. reflexivity.
+  - apply IH.
+Qed.
+
+Lemma combine_nth_some {X Y} (l1 : list X) (l2 : list Y) i a :
+  nth_error l1 i = Some a -> (i < length l2)%nat -> exists b, nth_error (combine l1 l2) i = Some (a, b).
+Proof.
+  revert l2 i. induction l1 as [|x r IH]; intros [|y l2] [|i]; simpl; try discriminate; try lia.
+  - intros H _. inversion H. exists y. reflexivity.
+  - intros H Hl. apply IH; [exact H|lia].
+Qed.
+
+Lemma hist_bounds_nth (B : Type) (f : B -> fclass) src bs i b :
+  hist_bounds B f src = Ok bs -> nth_error src i = Some b -> nth_error bs i = Some (f b).
+Proof.
+  intros Hbs Hb. assert (Hi : (i < length src)%nat) by (apply nth_error_Some; congruence).
+  unfold hist_bounds in Hbs. destruct (length (with_inf (map f src)) <? 2)%nat; [discriminate|].
+  inversion Hbs. rewrite with_inf_nth by (rewrite map_length; exact Hi).
+  rewrite nth_error_map, Hb. reflexivity.
+Qed.
+
+(* the i-th given bound gets the rendering of float(bound) - nothing of how it was given survives *)
+Theorem hist_le_nth (B : Type) (f : B -> fclass) src counts out i b le n :
+  hist_le_samples B f src counts = Ok out ->
+  nth_error src i = Some b -> nth_error out i = Some (le, n) -> le = go_string (f b).
+Proof.
+  intros H Hb Ho. unfold hist_le_samples in H.
+  destruct (hist_bounds B f src) as [bs|e] eqn:Hbs; simpl in H; [|discriminate]. inversion H. subst out.
+  assert (Hm : nth_error (map fst (le_cumulate 0 (combine bs counts))) i = Some le)
+    by (rewrite nth_error_map, Ho; reflexivity).
+  rewrite le_cumulate_labels, nth_error_map in Hm.
+  destruct (nth_error (combine bs counts) i) as [[b' c]|] eqn:E; [|discriminate].
+  simpl in Hm. inversion Hm. apply combine_nth_fst in E.
+  rewrite (hist_bounds_nth B f src bs i b Hbs Hb) in E. inversion E. reflexivity.
+Qed.
+
+(* ... and it IS exposed (a bucket per given bound) when a value was kept for it *)
+Theorem hist_le_nth_exposed (B : Type) (f : B -> fclass) src counts out i b :
+  hist_le_samples B f src counts = Ok out -> nth_error src i = Some b -> (i < length counts)%nat ->
+  exists n, nth_error out i = Some (go_string (f b), n).
+Proof.
+  intros H Hb Hc. pose proof H as H0. unfold hist_le_samples in H.
+  destruct (hist_bounds B f src) as [bs|e] eqn:Hbs; simpl in H; [|discriminate]. inversion H.
+  destruct (combine_nth_some bs counts i (f b) (hist_bounds_nth B f src bs i b Hbs Hb) Hc) as (c & Ec).
+  assert (Hm : nth_error (map fst (le_cumulate 0 (combine bs counts))) i = Some (go_string (f b)))
+    by (rewrite le_cumulate_labels, nth_error_map, Ec; reflexivity).
+  rewrite nth_error_map in Hm.
+  destruct (nth_error (le_cumulate 0 (combine bs counts)) i) as [[le n]|]; [|discriminate].
+  simpl in Hm. inversion Hm. exists n. reflexivity.
+Qed.
+
+Theorem hist_le_of_the_double (B : Type) (f : B -> fclass) src counts out :
+  hist_le_samples B f src counts = Ok out ->
+  exists bs, hist_bounds B f src = Ok bs
+    /\ (2 <= length bs)%nat
+    /\ (exists pre, bs = pre ++ [FPosInf] /\ (pre = map f src \/ pre ++ [FPosInf] = map f src))
+    /\ (length counts = length bs ->
+          map fst out = map go_string bs /\ map snd out = prefix_sums 0 counts).
+Proof.
+  intro H. destruct (hist_le_own_bounds B f src counts out H) as (bs & Hb & Hm).
+  exists bs. destruct (hist_bounds_shape B f src bs Hb) as [H2 Hs]. auto.
+Qed.
+
+Theorem hist_le_nth_both (B : Type) (f : B -> fclass) src counts out i b :
+  hist_le_samples B f src counts = Ok out -> nth_error src i = Some b ->
+  (forall le n, nth_error out i = Some (le, n) -> le = go_string (f b))
+  /\ ((i < length counts)%nat -> exists n, nth_error out i = Some (go_string (f b), n)).
+Proof.
+  intros H Hb. split.
+  - intros le n Ho. exact (hist_le_nth B f src counts out i b le n H Hb Ho).
+  - exact (hist_le_nth_exposed B f src counts out i b H Hb).
+Qed.
+
+(* how the bounds were given does not matter: two sources denoting the same doubles are exposed identically *)
+Theorem hist_le_spelling_independent (B1 B2 : Type) (f1 : B1 -> fclass) (f2 : B2 -> fclass) s1 s2 counts :
+  map f1 s1 = map f2 s2 ->
+  hist_le_samples B1 f1 s1 counts = hist_le_samples B2 f2 s2 counts.
+Proof. intro H. unfold hist_le_samples, hist_bounds. rewrite H. reflexivity. Qed.
+
+(* one number, one label string: the same double at any position of any two histograms, however given *)
+Theorem hist_le_same_number (B1 B2 : Type) (f1 : B1 -> fclass) (f2 : B2 -> fclass) s1 s2 c1 c2 o1 o2 i j b1 b2 le1 n1 le2 n2 :
+  hist_le_samples B1 f1 s1 c1 = Ok o1 -> hist_le_samples B2 f2 s2 c2 = Ok o2 ->
+  nth_error s1 i = Some b1 -> nth_error s2 j = Some b2 -> f1 b1 = f2 b2 ->
+  nth_error o1 i = Some (le1, n1) -> nth_error o2 j = Some (le2, n2) -> le1 = le2.
+Proof.
+  intros H1 H2 N1 N2 Hf O1 O2.
+  rewrite (hist_le_nth B1 f1 s1 c1 o1 i b1 le1 n1 H1 N1 O1), (hist_le_nth B2 f2 s2 c2 o2 j b2 le2 n2 H2 N2 O2), Hf.
+  reflexivity.
+Qed.
+
+(* the in-process exposition of a histogram IS what the multiprocess collector renders for a label set with
+   those bounds and counts: the label strings agree across the two paths *)
+Theorem hist_le_agrees_with_merge (A B : Type) (f : B -> fclass) (l : A) src counts out bs :
+  hist_le_samples B f src counts = Ok out -> hist_bounds B f src = Ok bs ->
+  mp_le_samples true [(l, combine bs counts)] = [(l, out)].
+Proof.
+  unfold hist_le_samples. intros H Hb. rewrite Hb in H. simpl in H. inversion H. reflexivity.
+Qed.
+
+(* fewer than two buckets: ValueError, and nothing else is ever raised *)
+Theorem hist_le_only_value_error (B : Type) (f : B -> fclass) src counts e :
+  hist_le_samples B f src counts = Err e -> e = ValueError /\ (length (with_inf (map f src)) < 2)%nat.
+Proof.
+  unfold hist_le_samples, hist_bounds. destruct (length (with_inf (map f src)) <? 2)%nat eqn:E; simpl; [|discriminate].
+  intro H. inversion H. split; [reflexivity|]. apply Nat.ltb_lt. exact E.
+Qed.
+
+(* the verbatim design: bounds 1e6 given as the text "1000000" and +Inf given as "inf" *)
+Definition G_text : list given :=
+  [GText (s2l "0.50") (FFin true (s2l "0.5")); GText (s2l "1000000") (FFin true (s2l "1000000.0"));
+   GText (s2l "inf") FPosInf].
+Definition G_num : list given :=
+  [GNum (FFin true (s2l "0.5")); GNum (FFin true (s2l "1000000.0"))].
+
+Theorem hist_les_verbatim_wrong :
+  exists s1 s2 : list given,
+    with_inf (map given_float s1) = with_inf (map given_float s2)
+    /\ hist_les_verbatim s1 <> hist_les_verbatim s2
+    /\ hist_les_verbatim s1 <> map go_string (with_inf (map given_float s1))
+    /\ hist_les_verbatim s2 = map go_string (with_inf (map given_float s2))
+    /\ forall counts, hist_le_samples given given_float s1 counts = hist_le_samples given given_float s2 counts.
+Proof.
+  exists G_text, G_num. split; [vm_compute; reflexivity|].
+  split; [vm_compute; discriminate|]. split; [vm_compute; discriminate|].
+  split; [vm_compute; reflexivity|]. intro counts. reflexivity.
+Qed.
+
+Example hist_le_example :
+  hist_le_samples given given_float G_text [1; 2; 1] =
+    Ok [(s2l "0.5", 1); (s2l "1e+06", 3); (s2l "+Inf", 4)]
+  /\ hist_le_samples given given_float G_num [1; 2; 1] = hist_le_samples given given_float G_text [1; 2; 1]
+  /\ hist_le_samples given given_float [GText (s2l "Infinity") FPosInf] [0] = Err ValueError
+  /\ hist_les_verbatim G_text = [s2l "0.50"; s2l "1000000"; s2l "inf"].
+Proof. vm_compute. repeat split. Qed.
